@@ -421,13 +421,22 @@ def run_case(case, tier):
                     counts["groups_compared"] = counts.get("groups_compared", 0) + 1
                     h = iu.get(k)
                     if h is None:
-                        viol.append({"cls": "union-loses-group", "msg": "%s: %s of part %s missing in %s" % (cname, g["label"], pname, uname)})
+                        from .c06 import has_twins
+                        lost_cls = "union-loses-group"
+                        if len(ru.rec["names"]) > 1 and has_twins(a + b):
+                            lost_cls = "twins:average-in-a-union-with-more-conformations"
+                        viol.append({"cls": lost_cls, "msg": "%s: %s of part %s missing in %s" % (cname, g["label"], pname, uname)})
                         continue
                     diffs = obs.compare_groups(g, h, tol=1e-7)
                     if diffs:
                         cls = "distant-part-influences"
                         from .c06 import has_twins
-                        if cname == "AVR" and not same_confs and has_twins(a if pname == "A" else b):
+                        if len(ru.rec["names"]) > 1 and has_twins(a + b):
+                            # several conformations and residues that share chain and number up to the insertion code
+                            # (also across the two parts when they share chain identifiers): completing the
+                            # conformations merges them (known finding icode-twins-merged)
+                            cls = "twins:average-in-a-union-with-more-conformations"
+                        elif cname == "AVR" and not same_confs and has_twins(a if pname == "A" else b):
                             # the other part's labels add conformations; completing them loses atoms of residues
                             # that share a number with an insertion-coded neighbour (known finding icode-twins-merged)
                             cls = "twins:average-in-a-union-with-more-conformations"
